@@ -1,0 +1,66 @@
+#pragma once
+// Call tracing hooks for external verification tooling.
+//
+// Everything in this file is inert unless the library is compiled with
+// -DOVM_VERIF_TRACE; even then nothing happens unless a tracer installs a
+// callback in OpenVolumeMesh::verif::hook.  A Scope object at the top of a
+// public mutator reports the outermost call only (nested internal calls of
+// other public mutators are not reported), once when it starts and once when
+// it returns.
+
+#ifdef OVM_VERIF_TRACE
+
+#include <vector>
+#include <OpenVolumeMesh/Config/Export.hh>
+
+namespace OpenVolumeMesh {
+class TopologyKernel;
+namespace verif {
+
+struct CallInfo {
+    const TopologyKernel *mesh;
+    const char *op;
+    long long a, b;
+    bool f;
+    std::vector<int> l;
+};
+
+// phase 0: the outermost call starts, phase 1: it returns
+using HookFn = void (*)(int phase, const CallInfo &);
+extern OVM_EXPORT HookFn hook;
+extern OVM_EXPORT int depth;
+
+template <class HandleVec> std::vector<int> idxs(const HandleVec &v) {
+    std::vector<int> r;
+    for (const auto &h : v) r.push_back(h.idx());
+    return r;
+}
+
+struct Scope {
+    CallInfo ci;
+    bool active;
+    Scope(const TopologyKernel *m, const char *op, long long a = 0, long long b = 0, bool f = false,
+          std::vector<int> l = {})
+        : ci{m, op, a, b, f, std::move(l)}, active(hook != nullptr && depth++ == 0) {
+        if (hook != nullptr && !active) { /* nested */ }
+        if (active) hook(0, ci);
+    }
+    ~Scope() {
+        if (hook == nullptr) return;
+        if (active) { hook(1, ci); }
+        --depth;
+    }
+    Scope(const Scope &) = delete;
+    Scope &operator=(const Scope &) = delete;
+};
+
+} // namespace verif
+} // namespace OpenVolumeMesh
+
+#define OVM_VERIF_SCOPE(...) ::OpenVolumeMesh::verif::Scope ovm_verif_scope_(this, __VA_ARGS__)
+
+#else
+
+#define OVM_VERIF_SCOPE(...)
+
+#endif
